@@ -89,7 +89,7 @@ def run_case(c):
         conss = []
         for _ in range(rng.choice([1, 1, 2, 3])):
             for _try in range(20):
-                cons = consgen.rand_constraint(rng, info, depth=rng.choice([0, 0, 1, 2]))
+                cons = consgen.rand_constraint(rng, info, depth=rng.choice([0, 1, 2, 2]))
                 if _acceptable(cons):
                     conss.append(cons)
                     break
